@@ -285,7 +285,8 @@ func run(c *runner.Ctx, idx int) {
 	dopt := cencgen.LibOpt{SliceReader: c.Rand.Bool(), Separate: separate, BoxTree: c.Rand.Bool()}
 	// which serialiser writes the encrypted / the decrypted file (chosen by the case index: no draw)
 	eopt.EncodeSW, dopt.EncodeSW = c.Idx%3 == 1, c.Idx%4 == 2
-	c.Seen("serialiser", fmt.Sprintf("encrypt-side-EncodeSW=%v,decrypt-side-EncodeSW=%v", eopt.EncodeSW, dopt.EncodeSW))
+	eopt.SinfFirst = c.Idx%5 == 3
+	c.Seen("serialiser", fmt.Sprintf("encrypt-side-EncodeSW=%v,decrypt-side-EncodeSW=%v,sinf-first=%v", eopt.EncodeSW, dopt.EncodeSW, eopt.SinfFirst))
 	// key rotation (library on both sides only: the tools take one key): fragment g is encrypted and decrypted
 	// with key number g/period, the decryption side uses ONE DecryptInfo for all of them
 	var encRot, decRot cencgen.RotStats
